@@ -138,6 +138,7 @@ goal		:  initlex sect1 sect1end sect2 initforrule
 			rule_has_nl[num_rules] = true;
 
 			finish_rule( def_rule, false, 0, 0, 0);
+			begin_rule_action();
 
 			for ( i = 1; i <= lastsc; ++i )
 				scset[i] = mkbranch( scset[i], def_rule );
@@ -238,7 +239,10 @@ option		:  TOK_OUTFILE '=' NAME
 		;
 
 sect2		:  sect2 scon initforrule flexrule '\n'
-			{ scon_stk_ptr = $2; }
+			{
+			scon_stk_ptr = $2;
+			begin_rule_action();
+			}
 		|  sect2 scon '{' sect2 '}'
 			{ scon_stk_ptr = $2; }
 		|
